@@ -97,6 +97,34 @@ def onTheFlyItems (cfg : Cfg) : List Val → List Val
   | v :: rest => onTheFly cfg v :: onTheFlyItems cfg rest
 end
 
+/-! ## Escaping `_pos=` in terminal values (since the `fix:` commit b1d74a8)
+
+`flatten_node` dumps a terminal value as `repr(node).replace("_pos=", r"_pos\=")`. The model performs
+this replacement on the tree, before dumping (`escapeTree`); `dumpPE` below is the dump that escapes in
+its scalar case, like the code, and Proofs/FlatEscape.lean shows the two agree. -/
+
+/-- Python `r.replace("_pos=", "_pos\\=")` (non-overlapping, left to right). -/
+def escapePos : Str → Str
+  | '_' :: 'p' :: 'o' :: 's' :: '=' :: t => '_' :: 'p' :: 'o' :: 's' :: '\\' :: '=' :: escapePos t
+  | c :: t => c :: escapePos t
+  | [] => []
+
+mutual
+def escapeTree : Val → Val
+  | .node ty e r ln fs => .node ty e r ln (escapeFields fs)
+  | .list q xs => .list q (escapeItems xs)
+  | .scalar r k => .scalar (escapePos r) k
+def escapeFields : List (Str × Val) → List (Str × Val)
+  | [] => []
+  | (n, v) :: rest => (n, escapeTree v) :: escapeFields rest
+def escapeItems : List Val → List Val
+  | [] => []
+  | v :: rest => escapeTree v :: escapeItems rest
+end
+
+/-- What `flatten_node` traverses, as a tree: reordered / renamed fields, escaped terminal values. -/
+def prep (cfg : Cfg) (t : Val) : Val := escapeTree (onTheFly cfg t)
+
 /-! ## The pseudo-hash factory as explicit state -/
 
 structure HashState where
@@ -182,6 +210,28 @@ def dumpPItems (h : Str → Str) (pre path : Str) (i : Nat) : List Val → List 
   | [] => []
   | v :: rest =>
     dumpP h (subPre pre (dec i)) (subPath path i) v ++ dumpPItems h pre path (i + 1) rest
+end
+
+mutual
+/-- The dump that escapes `_pos=` in its scalar case, as `flatten_node` does. -/
+def dumpPE (h : Str → Str) (pre path : Str) : Val → List Str
+  | .node ty e r ln fs =>
+    typeLine pre ty ::
+      ((if e then [hashLine pre (h r)] else []) ++
+        (match ln with
+          | some n => [posLine pre n path]
+          | none => []) ++
+        dumpPEFields h pre path 0 fs)
+  | .list q xs => (if q then [] else [lengthLine pre xs.length]) ++ dumpPEItems h pre path 1 xs
+  | .scalar r _ => [scalarLine pre (escapePos r)]
+def dumpPEFields (h : Str → Str) (pre path : Str) (i : Nat) : List (Str × Val) → List Str
+  | [] => []
+  | (name, v) :: rest =>
+    dumpPE h (subPre pre name) (subPath path i) v ++ dumpPEFields h pre path (i + 1) rest
+def dumpPEItems (h : Str → Str) (pre path : Str) (i : Nat) : List Val → List Str
+  | [] => []
+  | v :: rest =>
+    dumpPE h (subPre pre (dec i)) (subPath path i) v ++ dumpPEItems h pre path (i + 1) rest
 end
 
 /-! ## String helpers for the line-level passes -/
@@ -379,12 +429,18 @@ def postProcess (ls : List Str) : List Str :=
   unquote (simplifyNegativeLiterals (backportAllConstants (suppressPosonlyargs
     (suppressAliasPos (suppressKinds ls)))))
 
+/-- The state `flatten_node` starts from: `pseudo_hash.reset()` is a real step of `flatten_ast`; with
+`doReset = false` (the code without that line) the factory is used as it was left. -/
+def startState (doReset : Bool) (s : HashState) : HashState := if doReset then HashState.reset else s
+
+/-- `flatten_ast(tree)` with or without its first line `pseudo_hash.reset()`. -/
+def flattenAstG (doReset : Bool) (cfg : Cfg) (s : HashState) (t : Val) : List Str × HashState :=
+  let r := dumpS [] [] (prep cfg t) (startState doReset s)
+  (postProcess r.1, r.2)
+
 /-- `flatten_ast(tree)`: reset the global factory, dump, post-process.
 Returns the lines and the state the factory is left in. -/
-def flattenAst (cfg : Cfg) (s : HashState) (t : Val) : List Str × HashState :=
-  let _ := s  -- the incoming state is overwritten by `pseudo_hash.reset()`
-  let r := dumpS [] [] (onTheFly cfg t) HashState.reset
-  (postProcess r.1, r.2)
+def flattenAst (cfg : Cfg) (s : HashState) (t : Val) : List Str × HashState := flattenAstG true cfg s t
 
 /-- A sequence of flattenings in one process. -/
 def flattenSeq (cfg : Cfg) : HashState → List Val → List (List Str) × HashState
